@@ -98,7 +98,7 @@ let render_proj (toks : (loc * ptok) list) : string =
   let tbl = Hashtbl.create 16 in
   List.iter (fun (l, tk) ->
       match l with
-      | _ when !silent_assign && (match tk with PAssign _ -> true | _ -> false) -> ()
+      | _ when !silent_assign && (match tk with PAssign (KValue, _) -> false | PAssign _ -> true | _ -> false) -> ()   (* operator=(int) is user-provided: logged *)
       | Slot (c, i) when int_of_nat c < 2 ->
         let key = (int_of_nat c, int_of_nat i) in
         let old = try Hashtbl.find tbl key with Not_found -> [] in
@@ -133,7 +133,7 @@ let render_raw (evs : event list) : string =
     | Assign (l, h) -> how_s "A" l h
     | Destroy l -> let n = name l in forget l; "D:" ^ n
     | Use l -> "U:" ^ name l in
-  let evs = if !silent_assign then List.filter (function Assign _ -> false | _ -> true) evs else evs in
+  let evs = if !silent_assign then List.filter (function Assign (_, Value _) -> true | Assign _ -> false | _ -> true) evs else evs in
   if evs = [] then "-" else join (List.map one evs)
 
 let render_step raw (r : report) : string =
